@@ -10,6 +10,7 @@ import (
 	"path/filepath"
 	"sort"
 	"strings"
+	"time"
 
 	"golang.org/x/tools/go/packages"
 	"golang.org/x/tools/go/ssa"
@@ -32,6 +33,8 @@ type World struct {
 	byName     map[string][]*types.Package
 	axiomsDone map[*Unit]map[string]bool
 	allFns     map[*ssa.Function]bool
+	lints      []*LintInfo
+	timeCache  map[*ssa.Global]time.Time
 }
 
 type Trace struct {
